@@ -3,6 +3,7 @@ import LexVerif.Spec.StdFloat
 import LexVerif.Spec.Shortest
 import LexVerif.Model.FormatDecimal
 import LexVerif.Model.Ops.ParseInt
+import LexVerif.Model.Ops.ParseIntFormat
 import LexVerif.Model.Ops.FormatError
 import LexVerif.Model.Ops.WriteInt
 import LexVerif.Model.Ops.ParseFloat
@@ -171,7 +172,7 @@ def specOf (feats : Features) (t : List String) : String :=
 Each `Model/Ops/*.lean` exposes `handle : Features → List String → Option String`. -/
 def modelHandlers : List (Features → List String → Option String) :=
   [LexVerif.Model.Ops.OptionsValid.handle,
-   LexVerif.Model.Ops.ParseInt.handle, LexVerif.Model.Ops.FormatError.handle, LexVerif.Model.Ops.WriteInt.handle,
+   LexVerif.Model.Ops.ParseInt.handle, LexVerif.Model.Ops.FormatError.handle, LexVerif.Model.Ops.ParseIntFormat.handle, LexVerif.Model.Ops.WriteInt.handle,
    LexVerif.Model.Ops.ParseFloat.handle, LexVerif.Model.Ops.ParseFloatAlgo.handle, LexVerif.Model.Ops.ParseAlgos.handle, LexVerif.Model.Ops.WriteAlgos.handle,
    LexVerif.Model.Ops.WriteFloat.handle]
 
